@@ -106,6 +106,15 @@ def check_props(ctx):
           any(isinstance(n_, ast.Call) and isinstance(n_.func, ast.Attribute) and n_.func.attr == "has_px" for n_ in own_nodes(hp.node))
         ctx.check(looks, "TAB-has-px", f"{SP}:{c.name}.has_px|compares units with px", ctx.where(m, hp.node), "tests `<length>.units == Units.px` (or delegates to another has_px)",
                   f"{c.name}.has_px never looks at the units of the value: px lengths of this property are not reported")
+        # every length-typed field of the value type is looked at
+        need = set()
+        for tname in sorted(tested & length_types):
+          need |= length_fields(ix, tname, set())
+        read = {n_.attr for n_ in own_nodes(hp.node) if isinstance(n_, ast.Attribute)}
+        missing = sorted(need - read)
+        if need:
+          ctx.check(not missing, "TAB-has-px", f"{SP}:{c.name}.has_px|reads every length field {sorted(need)}", ctx.where(m, hp.node), f"reads {sorted(need)}",
+                    f"{c.name}.has_px does not look at the length field(s) {missing}: a px value there is not reported, so tts:extent is not written on <tt>")
     # special values
     special = set()
     if v is not None:
@@ -279,6 +288,65 @@ def check_doc_params(ctx):
             "the search for px lengths no longer covers specified styles and animation steps of every region and content element")
 
 
+def length_fields(ix, type_name: str, seen) -> set:
+  """Names of the fields of value type `type_name` (a class of ttconv.style_properties) that hold a length, recursively through nested value types."""
+  if type_name in seen:
+    return set()
+  seen.add(type_name)
+  out = set()
+  cands = [c for c in ix.classes.values() if c.module.name == "ttconv.style_properties" and c.name == type_name.split(".")[-1]]
+  for c in cands:
+    for fname, ann in c.ann.items():
+      a = unparse(ann)
+      if "LengthType" in a:
+        out.add(fname)
+      else:
+        for other in ix.classes.values():
+          if other.module.name == "ttconv.style_properties" and other is not c and other.ann and (other.name in a.replace("[", " ").replace("]", " ").replace(",", " ").replace(".", " ").split()):
+            out |= length_fields(ix, other.name, seen)
+  return out
+
+
+def check_space_written(ctx):
+  """FIN-space: the writer emits xml:space on an element exactly when the element's value differs
+  from what the reader would inherit: from the parent's value, or - for a root element - from the
+  TTML default.  The guard of the XMLSpaceAttribute.set call is evaluated for every combination of
+  (parent absent / default / preserve) x (own default / preserve)."""
+  from ..consteval import EnumMember, NotConst
+  from ..rules.isdrules import substitute
+  ix = ctx.ix
+  f = ix.func("ttconv.imsc.elements:ContentElement.from_model")
+  ctx.unit(f.module)
+  guards = [n for n in own_nodes(f.node) if isinstance(n, ast.If) and any(isinstance(c, ast.Call) and unparse(c.func).endswith("XMLSpaceAttribute.set") for st in n.body for c in ast.walk(st))]
+  if len(guards) != 1:
+    raise AnalysisError(f"{f.qualname}: expected one guarded XMLSpaceAttribute.set call, found {len(guards)}")
+  g = guards[0]
+  me = next((p_ for p_ in f.params if p_.startswith("model_")), None)
+  if me is None:
+    raise AnalysisError(f"{f.qualname}: the model element parameter was not found")
+  test = substitute(g.test, {f"{me}.parent().get_space()": "__pspace", f"{me}.get_space()": "__space", f"{me}.parent()": "__parent"})
+  ce = ConstEval(ix, symbolic_ok=False)
+  ws = ix.cls("ttconv.model:WhiteSpaceHandling")
+  vals = {n: ce.ev(f.module, ast.parse(f"model.WhiteSpaceHandling.{n}", mode="eval").body) for n, _ in ix.enum_members(ws)}
+  if set(vals) != {"DEFAULT", "PRESERVE"}:
+    raise AnalysisError(f"WhiteSpaceHandling members are {sorted(vals)}")
+  wrong, n = [], 0
+  for par in (None, "DEFAULT", "PRESERVE"):
+    for own in ("DEFAULT", "PRESERVE"):
+      env = {"__parent": None if par is None else "an element", "__pspace": vals[par] if par else None, "__space": vals[own]}
+      try:
+        got = bool(ce.ev(f.module, test, None, env))
+      except (NotConst, TypeError, AttributeError) as e:
+        raise AnalysisError(f"{f.qualname}: the xml:space guard `{short(g.test, 80)}` leaves the evaluable subset ({e})")
+      n += 1
+      inherited = par if par is not None else "DEFAULT"
+      want = own != inherited
+      if got != want:
+        wrong.append(f"parent {par or 'absent'}, own {own}: written={got}, must be {want}")
+  ctx.check(not wrong, "FIN-space", f"{f.qualname}|xml:space is written exactly where it differs from the inherited value", ctx.where(f.module, g), f"{n} combinations agree",
+            "xml:space: " + "; ".join(wrong) + " - the element reads back with the wrong white-space handling")
+
+
 def check_special_emission(ctx):
   """SPECIAL-emit: a writer emits the keyword of a special value ("none", "normal") only for that
   special value: under an identity test with SpecialValues.<keyword> (or, for component-wise
@@ -366,6 +434,7 @@ def run(ctx):
   check_doc_params(ctx)
   check_px_scan(ctx)
   check_special_emission(ctx)
+  check_space_written(ctx)
   fs = common.funcs(ctx, ["ttconv.time_code"]) + [ix.func("ttconv.imsc.attributes:to_time_format")]
   n = exa.check_exactness(ctx, fs, rule="EXA", exempt=common.EXA_EXEMPT, trunc_scope=common.time_trunc_scope(ctx))
   ctx.floor("EXA", "truncation sinks on the writer's time path", n, 10)
